@@ -37,8 +37,12 @@ def one_hot(labels, n):
 
 def evaluate(case):
     vocab = case["vocab"]
-    stoi = {s: i for i, s in enumerate(vocab)}
-    itos = {i: s for i, s in enumerate(vocab)}
+    # the dictionaries are built in a drawn insertion order: only the mapping matters, not the order of the keys
+    order = case.get("insertion_order") or list(range(len(vocab)))
+    if sorted(order) != list(range(len(vocab))):
+        order = list(range(len(vocab)))
+    stoi = {vocab[i]: i for i in order}
+    itos = {i: vocab[i] for i in reversed(order)}
     n = len(vocab)
     kind = case["kind"]
     fails = []
@@ -184,6 +188,13 @@ def gen_tokens(ch, vocab, max_len=20, foreign=0):
 
 
 def gen_case(ch):
+    c = _gen_case(ch)
+    if ch.bool(60):
+        c["insertion_order"] = ch.shuffle(list(range(len(c["vocab"]))))
+    return c
+
+
+def _gen_case(ch):
     vocab = gen_vocab(ch)
     w = ch.weighted([(10, "single"), (5, "batch"), (2, "ragged")])
     if w == "single":
